@@ -19,6 +19,7 @@ const UNK: u32 = 77; // a flow id the endpoint has never seen
 const VT: u8 = 0x31; // host tag of the victim stream
 const BT: u8 = 0x32; // host tag of the bystander stream
 const E_RWND: u32 = 2;
+const DG_BUF: usize = 2; // datagram buffer of the endpoint in the sequences that contain a datagram flood
 
 #[derive(Clone, Copy, Debug, PartialEq, Eq, Hash)]
 pub enum Base {
@@ -54,6 +55,8 @@ pub enum Atk {
     Overrun,
     /// a message that is not a valid frame
     Invalid(Vec<u8>),
+    /// more Datagram frames than the endpoint's datagram buffer holds, while its application takes none out
+    DgramFlood,
 }
 
 fn atk_str(a: &Atk) -> String {
@@ -68,6 +71,7 @@ fn atk_str(a: &Atk) -> String {
             RFrame::Datagram { id, .. } => format!("Dgram({id})"),
         },
         Atk::Overrun => "Overrun(V)".into(),
+        Atk::DgramFlood => "DgramFlood".into(),
         Atk::Invalid(b) => format!("Invalid({})", crate::report::hex(b)),
     }
 }
@@ -93,6 +97,7 @@ fn alphabet() -> Vec<Atk> {
     v.push(Atk::F(RFrame::Connect { id: BY, rwnd: 1, port: 7, host: vec![0x33] }));
     v.push(Atk::F(RFrame::Acknowledge { id: BY, n: 0 }));
     v.push(Atk::Overrun);
+    v.push(Atk::DgramFlood);
     v
 }
 
@@ -188,6 +193,11 @@ fn all_resets(msgs: &[RMsg]) -> usize {
 
 fn exec(base: Base, binds: bool, seq: &[Atk], render: bool) -> RunOutput {
     let mut o = opts(E_RWND, 1).max_flow_id_retries(1);
+    // sequences with a datagram flood run against an application that never calls get_datagram and a small buffer
+    let flood = seq.iter().any(|a| matches!(a, Atk::DgramFlood));
+    if flood {
+        o = o.datagram_buffer_size(DG_BUF);
+    }
     if binds {
         o = o.bind_buffer_size(4);
     }
@@ -202,7 +212,9 @@ fn exec(base: Base, binds: bool, seq: &[Atk], render: bool) -> RunOutput {
     plans.insert(BT, EndPlan::Seq(vec![Op::ReadToEof(8), Op::W(1), Op::Shutdown]));
     plans.insert(0x33, EndPlan::Seq(vec![Op::Park]));
     cx.w.spawn_acceptor(0, usize::MAX, plans);
-    cx.w.spawn_dgram_receiver(0, "dgrecv.a", usize::MAX, false);
+    if !flood {
+        cx.w.spawn_dgram_receiver(0, "dgrecv.a", usize::MAX, false);
+    }
     if binds {
         cx.w.spawn_bind_responder(0, 0, vec![], vec![BindAnswer::DropIt]);
     }
@@ -381,6 +393,20 @@ fn exec(base: Base, binds: bool, seq: &[Atk], render: bool) -> RunOutput {
                 }
                 if got.iter().any(|m| matches!(m, RMsg::Frame(g) if g.id() == BY)) {
                     pv(&mut cx.viol, "reply.on-bystander", format!("overrun of the victim provoked frames on the bystander: {got:?}"));
+                }
+                got
+            }
+            Atk::DgramFlood => {
+                // nobody takes datagrams out: what does not fit is lost, nothing else may happen (no reply, no flow
+                // touched); that the endpoint goes on serving is judged by the rest of the sequence and the epilogue
+                let tbl_before = cx.w.mux[0].as_ref().map(|m| m.verif_flow_digest());
+                for i in 0..DG_BUF + 2 {
+                    cx.raw.send(&RFrame::Datagram { id: UNK, port: 53, host: vec![b'f'], data: vec![i as u8; 3] });
+                }
+                let got = cx.settle();
+                let tbl_now = cx.w.mux[0].as_ref().map(|m| m.verif_flow_digest());
+                if !got.is_empty() || tbl_now != tbl_before {
+                    pv(&mut cx.viol, "datagram.disturbed", format!("a flood of {} datagrams provoked {got:?} / changed the flow table from {tbl_before:?} to {tbl_now:?}", DG_BUF + 2));
                 }
                 got
             }
